@@ -171,21 +171,25 @@ def handle (args : List String) (impl : List String) : String :=
     | _, _ => "bad-op"
   | ["rel", "same", e1, e2, s1, s2, scale] =>
     match parseQs? e1, parseQs? e2, parseQs? s1, parseQs? s2, parseQ? scale with
-    | some e1, some e2, some s1, some s2, some sc =>
+    | some e1, some e2, some s1, some s2, some sc0 =>
+      -- extrapolating systems amplify the data scale: the tolerance follows the estimates as well
+      let sc := maxQ sc0 (maxQ (vmaxAbs e1) (vmaxAbs e2))
       if !(vclose (pow2 (-20) * sc) e1 e2) then "bad relation=invariance estimates differ"
       else if !(vclose (pow2 (-20) * sc) (s1.map fun x => x * x) (s2.map fun x => x * x)) then "bad relation=invariance variances differ"
       else "ok"
     | _, _, _, _, _ => "bad-op"
   | ["rel", "shift", e1, e2, d, s1, s2, scale] =>
     match parseQs? e1, parseQs? e2, parseQs? d, parseQs? s1, parseQs? s2, parseQ? scale with
-    | some e1, some e2, some d, some s1, some s2, some sc =>
+    | some e1, some e2, some d, some s1, some s2, some sc0 =>
+      let sc := maxQ sc0 (maxQ (vmaxAbs e1) (vmaxAbs e2))
       if !(vclose (pow2 (-20) * sc) (List.zipWith (· + ·) e1 d) e2) then "bad relation=drift-shift estimates"
       else if !(vclose (pow2 (-20) * sc) (s1.map fun x => x * x) (s2.map fun x => x * x)) then "bad relation=drift-shift variances"
       else "ok"
     | _, _, _, _, _, _ => "bad-op"
   | ["rel", "linear", e1, e2, e3, a, b, scale] =>
     match parseQs? e1, parseQs? e2, parseQs? e3, parseQ? a, parseQ? b, parseQ? scale with
-    | some e1, some e2, some e3, some a, some b, some sc =>
+    | some e1, some e2, some e3, some a, some b, some sc0 =>
+      let sc := maxQ sc0 (maxQ (maxQ (vmaxAbs e1) (vmaxAbs e2)) (vmaxAbs e3))
       if vclose (pow2 (-20) * sc) (List.zipWith (fun x y => a * x + b * y) e1 e2) e3 then "ok" else "bad relation=linearity"
     | _, _, _, _, _, _ => "bad-op"
   | _ => "bad-op"
